@@ -568,7 +568,7 @@ func keepAliveScenarios() []*scenario {
 	q := rq(0, "keep-alive-client")
 	return []*scenario{{
 		Name: "keepalive/client", Proto: proto, ProtoID: id, Mode: modeNtN, Opts: opts, BadExtra: badExtra,
-		SM: &smBinding{keepalive.StateMap, keepalive.NewMsgFromCbor, "Client"},
+		SM:     &smBinding{keepalive.StateMap, keepalive.NewMsgFromCbor, "Client"},
 		Script: []ev{q, r, q, r, q, r},
 	}}
 }
@@ -723,11 +723,11 @@ func leiosScenarios() []*scenario {
 		cStop := call("Stop", func(c *ouroboros.Connection) (string, error) { return okStr(cl(c).Stop()) })
 		out = append(out,
 			&scenario{Name: "leiosnotify/Sync", Proto: proto, ProtoID: id, Mode: modeNtN, Opts: opts, BadExtra: badExtra,
-				SM: &smBinding{leiosnotify.StateMap, leiosnotify.NewMsgFromCbor, "Idle"},
+				SM:     &smBinding{leiosnotify.StateMap, leiosnotify.NewMsgFromCbor, "Idle"},
 				Calls:  []apiCall{cSync},
 				Script: []ev{rq(0, "Sync"), rp("Sync", offer, txsOffer), rq(0, "Sync"), rp("Sync", txsOffer, offer), rq(0, "Sync"), rp("Sync", offer, txsOffer)}},
 			&scenario{Name: "leiosnotify/Sync-Stop", Proto: proto, ProtoID: id, Mode: modeNtN, Opts: opts, BadExtra: badExtra,
-				SM: &smBinding{leiosnotify.StateMap, leiosnotify.NewMsgFromCbor, "Idle"},
+				SM:     &smBinding{leiosnotify.StateMap, leiosnotify.NewMsgFromCbor, "Idle"},
 				Calls:  []apiCall{cSync, cStop},
 				Script: []ev{rq(0, "Sync"), rp("Sync", offer, txsOffer)}},
 		)
@@ -826,7 +826,9 @@ func dmqScenarios() []*scenario {
 			)
 			return []ouroboros.ConnectionOptionFunc{ouroboros.WithLocalMessageNotificationConfig(cfg)}
 		}
-		cl := func(c *ouroboros.Connection) *localmessagenotification.Client { return c.LocalMessageNotification().Client }
+		cl := func(c *ouroboros.Connection) *localmessagenotification.Client {
+			return c.LocalMessageNotification().Client
+		}
 		cNB := call("RequestMessagesNonBlocking", func(c *ouroboros.Connection) (string, error) { return okStr(cl(c).RequestMessagesNonBlocking()) })
 		cB := call("RequestMessagesBlocking", func(c *ouroboros.Connection) (string, error) { return okStr(cl(c).RequestMessagesBlocking()) })
 		cStop := call("Stop", func(c *ouroboros.Connection) (string, error) { return okStr(cl(c).Stop()) })
